@@ -8,6 +8,7 @@
  * name resolution as documented in the library file: unit names are matched before prefixes; a prefix
    (one letter first, then two letters) attaches to a LIBRARY unit only (no compound prefixes).
 """
+import decimal
 import math
 import re
 from fractions import Fraction
@@ -28,53 +29,138 @@ class RefError(Exception):
 
 
 class U(object):
-    """q * pi**k * prod(base_i ** powers_i), optional additive offset (temperatures)."""
+    """q * pi**k * Q**(1/d) * prod(base_i ** powers_i), optional additive offset (temperatures).
 
-    __slots__ = ('q', 'k', 'powers', 'offset', 'ops', 'mag')
+    `irr` = (Q, d) is the irrational part left by a root that has no rational value (sqrt(1000), 12**(1/2)):
+    Q a positive Fraction, d >= 2; None when the factor is rational (times a power of pi).  `k` is an int,
+    or a Fraction after a root of an odd power of pi.
+    """
 
-    def __init__(self, q, k, powers, offset=Fraction(0), ops=0, mag=0.0):
+    __slots__ = ('q', 'k', 'powers', 'offset', 'ops', 'mag', 'irr')
+
+    def __init__(self, q, k, powers, offset=Fraction(0), ops=0, mag=0.0, irr=None):
         self.q, self.k, self.powers, self.offset, self.ops = Fraction(q), k, tuple(powers), Fraction(offset), ops
+        self.irr = irr
         # largest |log10(factor)| met in any sub-expression (to recognise intermediate over/underflow)
         self.mag = max(mag, abs(self.log10()))
+
+    def exact(self):
+        """True if the factor is q * pi**k with integer k (the case of every library / prefixed unit)."""
+        return self.irr is None and isinstance(self.k, int)
 
     def log10(self):
         if self.q <= 0:
             return 0.0
-        return math.log10(self.q.numerator) - math.log10(self.q.denominator) + self.k * math.log10(math.pi)
+        out = math.log10(self.q.numerator) - math.log10(self.q.denominator) + float(self.k) * math.log10(math.pi)
+        if self.irr is not None:
+            Q, d = self.irr
+            out += (math.log10(Q.numerator) - math.log10(Q.denominator)) / d
+        return out
+
+    def dec(self):
+        """The factor as a 60-digit Decimal."""
+        with decimal.localcontext() as ctx:
+            ctx.prec = 60
+            out = decimal.Decimal(self.q.numerator) / decimal.Decimal(self.q.denominator)
+            if self.k:
+                k = Fraction(self.k)
+                out *= _PI ** (decimal.Decimal(k.numerator) / decimal.Decimal(k.denominator))
+            if self.irr is not None:
+                Q, d = self.irr
+                out *= (decimal.Decimal(Q.numerator) / decimal.Decimal(Q.denominator)) ** \
+                    (decimal.Decimal(1) / decimal.Decimal(d))
+            return out
 
     def factor(self):
-        return float(self.q) * math.pi ** self.k
+        if self.exact():
+            return float(self.q) * math.pi ** self.k
+        return float(self.dec())
+
+    def _check(self, o=None):
+        if self.offset or (o is not None and o.offset):
+            raise RefError('offset unit in product / quotient / power')
 
     def mul(self, o):
-        if self.offset or o.offset:
-            raise RefError('offset unit in product')
-        return U(self.q * o.q, self.k + o.k, [a + b for a, b in zip(self.powers, o.powers)], 0,
-                 self.ops + o.ops + 1, max(self.mag, o.mag))
+        self._check(o)
+        q, irr = _join_irr(self.q * o.q, self.irr, o.irr)
+        return U(q, _norm_k(self.k + o.k), [a + b for a, b in zip(self.powers, o.powers)], 0,
+                 self.ops + o.ops + 1, max(self.mag, o.mag), irr)
 
     def div(self, o):
-        if self.offset or o.offset:
-            raise RefError('offset unit in quotient')
-        return U(self.q / o.q, self.k - o.k, [a - b for a, b in zip(self.powers, o.powers)], 0,
-                 self.ops + o.ops + 1, max(self.mag, o.mag))
+        self._check(o)
+        oirr = None if o.irr is None else (1 / o.irr[0], o.irr[1])
+        q, irr = _join_irr(self.q / o.q, self.irr, oirr)
+        return U(q, _norm_k(self.k - o.k), [a - b for a, b in zip(self.powers, o.powers)], 0,
+                 self.ops + o.ops + 1, max(self.mag, o.mag), irr)
 
     def pow(self, n):
-        if self.offset:
-            raise RefError('offset unit in power')
+        self._check()
         if isinstance(n, int):
             if n < 0 and self.q == 0:
                 raise RefError('zero')
-            return U(self.q ** n, self.k * n, [a * n for a in self.powers], 0, self.ops + abs(n) + 1, self.mag)
+            q, irr = self.q ** n, None
+            if self.irr is not None:
+                q, irr = _join_irr(q, (self.irr[0] ** n, self.irr[1]), None)
+            return U(q, _norm_k(self.k * n), [a * n for a in self.powers], 0, self.ops + abs(n) + 1, self.mag, irr)
         raise RefError('non-integer power')
 
-    def root(self, r):
-        """Exact r-th root if it exists (inverse integer exponent)."""
-        if self.offset or self.k % r or any(p % r for p in self.powers):
+    def root(self, r, exact_only=False):
+        """r-th root (inverse integer exponent): the dimension must be a perfect r-th power."""
+        if self.offset or any(p % r for p in self.powers):
             raise RefError('root does not exist')
-        num, den = self.q.numerator, self.q.denominator
-        rn, rd = _iroot(num, r), _iroot(den, r)
-        if rn is None or rd is None:
+        if self.q <= 0:
+            raise RefError('root of a non-positive factor')
+        if self.irr is None:
+            T, D = self.q, r
+        else:
+            Q, d = self.irr
+            T, D = self.q ** d * Q, d * r
+        q, irr = _reduce_root(T, D)
+        k = _norm_k(Fraction(self.k) / r)
+        if exact_only and (irr is not None or not isinstance(k, int)):
             raise RefError('irrational root')
-        return U(Fraction(rn, rd), self.k // r, [p // r for p in self.powers], 0, self.ops + 3, self.mag)
+        # the implementation evaluates factor ** (1/r) with the exponent rounded to a double: unless 1/r is a
+        # power of two, the exponent error (<= 2**-53 / r) is amplified by |ln(factor)|; in units of 2**-52:
+        extra = 0 if r & (r - 1) == 0 else int(abs(self.log10()) * math.log(10.0) / (2 * r)) + 1
+        return U(q, k, [p // r for p in self.powers], 0, self.ops + 3 + extra, self.mag, irr)
+
+
+_PI = decimal.Decimal('3.14159265358979323846264338327950288419716939937510582097494459')
+
+
+def _norm_k(k):
+    if isinstance(k, Fraction) and k.denominator == 1:
+        return int(k)
+    return k
+
+
+def _reduce_root(T, D):
+    """T**(1/D) for a positive Fraction T -> (rational part, irr or None), taking exact roots where they exist."""
+    for p in (2, 3, 5, 7):
+        while D % p == 0:
+            rn, rd = _iroot(T.numerator, p), _iroot(T.denominator, p)
+            if rn is None or rd is None:
+                break
+            T, D = Fraction(rn, rd), D // p
+    if D == 1:
+        return T, None
+    if T == 1:
+        return Fraction(1), None
+    return Fraction(1), (T, D)
+
+
+def _join_irr(q, a, b):
+    """q * a * b for irrational parts a, b (each None or (Q, d)) -> (q', irr')."""
+    if a is None and b is None:
+        return q, None
+    if a is None or b is None:
+        Q, d = a if b is None else b
+        q2, irr = _reduce_root(Q, d)
+        return q * q2, irr
+    (Q1, d1), (Q2, d2) = a, b
+    ell = d1 * d2 // math.gcd(d1, d2)
+    q2, irr = _reduce_root(Q1 ** (ell // d1) * Q2 ** (ell // d2), ell)
+    return q * q2, irr
 
 
 def _iroot(n, r):
@@ -224,29 +310,53 @@ class Library(object):
                 return u
             raise RefError('unexpected token %r' % (val,))
 
-        def signed_int():
+        def signs():
             sign = 1
             while peek() == ('op', '-') or peek() == ('op', '+'):
                 if take()[1] == '-':
                     sign = -sign
+            return sign
+
+        def exponent():
+            """-> (sign, literal text, None) for `[+-] number`, (sign, None, Fraction) for `([+-] number / number)`."""
+            sign = signs()
+            if peek() == ('op', '('):
+                take()
+                sign *= signs()
+                kind, val = take()
+                if kind != 'num':
+                    raise RefError('exponent must be a number')
+                if peek() == ('op', '/'):
+                    take()
+                    kind2, val2 = take()
+                    if kind2 != 'num' or Fraction(val2) == 0:
+                        raise RefError('exponent must be a number')
+                    out = (sign, None, Fraction(val) / Fraction(val2))
+                else:
+                    out = (sign, val, None)
+                if take() != ('op', ')'):
+                    raise RefError('missing ) in exponent')
+                return out
             kind, val = take()
             if kind != 'num':
                 raise RefError('exponent must be a number')
-            return sign, val
+            return sign, val, None
 
         def power():
             base = atom()
             if peek() == ('op', '**'):
                 take()
-                sign, val = signed_int()
-                if re.fullmatch(r'\d+', val):
-                    return base.pow(sign * int(val))
-                f = Fraction(val)
-                if sign > 0 and f.numerator == 1 and f.denominator > 1:
-                    return base.root(f.denominator)
+                sign, val, f = exponent()
+                if f is None:
+                    if re.fullmatch(r'\d+', val):
+                        return base.pow(sign * int(val))
+                    f = Fraction(val)
+                # a float for the implementation (a decimal literal, or a true division), which only allows
+                # inverse integers: 1.0 is the only one that is both, 2.0 is rejected by design
+                if f.numerator == 1 and f.denominator > 1:
+                    u = base.root(f.denominator)
+                    return u if sign > 0 else u.pow(-1)
                 if f.denominator == 1:
-                    # a float literal with an integral value (2.0) is a *float* power for the implementation,
-                    # which only allows inverse integers: 1.0 is the only one that is both
                     raise RefError('float literal as integer power')
                 raise RefError('unsupported power')
             return base
@@ -273,7 +383,21 @@ def convert(v, a, b):
     """
     if a.powers != b.powers:
         raise RefError('incompatible')
+    eps = 2.0 ** -52
     fv = Fraction(v)
+    if not (a.exact() and b.exact()):
+        # a factor with an irrational root: 60-digit decimal arithmetic instead of exact fractions
+        with decimal.localcontext() as ctx:
+            ctx.prec = 60
+            F = a.dec() / b.dec()
+
+            def D(x):
+                return decimal.Decimal(x.numerator) / decimal.Decimal(x.denominator)
+            val = float((D(fv) + D(a.offset)) * F - D(b.offset))
+            ratio = abs(float(F))
+        K = a.ops + b.ops + 8
+        scale = (abs(v) + abs(float(a.offset))) * ratio + abs(float(b.offset))
+        return val, K * eps * scale, scale
     exact_q = (fv + a.offset) * (a.q / b.q)
     dk = a.k - b.k
     val = float(exact_q) * math.pi ** dk - float(b.offset)
@@ -281,7 +405,6 @@ def convert(v, a, b):
         raise RefError('offset with pi')
     if not dk:
         val = float(exact_q - b.offset)
-    eps = 2.0 ** -52
     K = a.ops + b.ops + abs(dk) + 8
     ratio = abs(float(a.q / b.q)) * math.pi ** dk
     scale = (abs(v) + abs(float(a.offset))) * ratio + abs(float(b.offset))
